@@ -689,6 +689,7 @@ func (c06cDriver) Run(raw json.RawMessage) Case {
 	}
 	oldContent := fs.content(path)
 	fs.ops = nil
+	fs.events = nil
 	nv, err := c.Increment()
 	if err != nil {
 		return Case{Skip: "increment: " + err.Error()}
@@ -710,15 +711,77 @@ func (c06cDriver) Run(raw json.RawMessage) Case {
 	case renamed:
 		proto = "rename"
 	}
-	// reachable crash states of the clock file under that protocol
-	states := []string{""} // zero-length file: in-place truncation, or rename without fsync + power loss
-	if proto == "inplace" || proto == "unknown" {
-		for i := 1; i < len(newContent); i++ {
-			states = append(states, newContent[:i])
+	// ---- crash states of the files the write touched: before each file operation, inside each write, after the last
+	type fstate map[string]string
+	clone := func(m fstate) fstate {
+		r := fstate{}
+		for k, v := range m {
+			r[k] = v
+		}
+		return r
+	}
+	cur := fstate{path: oldContent}
+	var fstates []fstate
+	for _, ev := range fs.events {
+		fstates = append(fstates, clone(cur))
+		switch ev.Kind {
+		case "trunc":
+			cur[ev.Name] = ""
+		case "write":
+			for i := 1; i < len(ev.Data); i++ {
+				t := clone(cur)
+				t[ev.Name] += ev.Data[:i]
+				fstates = append(fstates, t)
+			}
+			cur[ev.Name] += ev.Data
+		case "rename":
+			if v, ok := cur[ev.Name]; ok {
+				cur[ev.To] = v
+				delete(cur, ev.Name)
+			}
+		case "remove":
+			delete(cur, ev.Name)
 		}
 	}
-	states = append(states, oldContent, newContent)
-	// a real repository holding commits up to the old clock value
+	fstates = append(fstates, clone(cur))
+	// the zero-length clock file: in-place truncation, or rename without fsync + power loss
+	fstates = append(fstates, fstate{path: ""})
+	if proto != "rename" {
+		for i := 1; i < len(newContent); i++ {
+			fstates = append(fstates, fstate{path: newContent[:i]})
+		}
+	}
+	// path numbering for the model: 0 is the clock
+	pathID := map[string]int{path: 0}
+	var inDir []string
+	pid := func(pth string) int {
+		pth = filepath.Clean(pth)
+		if id, ok := pathID[pth]; ok {
+			return id
+		}
+		id := len(pathID)
+		pathID[pth] = id
+		if filepath.Dir(pth) == "clocks" {
+			inDir = append(inDir, coqNat(id))
+		}
+		return id
+	}
+	var evTerms []string
+	for _, ev := range fs.events {
+		switch ev.Kind {
+		case "trunc":
+			evTerms = append(evTerms, fmt.Sprintf("FTrunc %d", pid(ev.Name)))
+		case "write":
+			evTerms = append(evTerms, fmt.Sprintf("FWrite %d %s", pid(ev.Name), coqRunes(ev.Data)))
+		case "rename":
+			evTerms = append(evTerms, fmt.Sprintf("FRename %d %d", pid(ev.Name), pid(ev.To)))
+		case "remove":
+			evTerms = append(evTerms, fmt.Sprintf("FRemove %d", pid(ev.Name)))
+		}
+	}
+	inDir = append([]string{"0"}, inDir...)
+
+	// ---- a real repository: an identity and two bugs with several commits each
 	dir, err := os.MkdirTemp("", "verif-c06c-")
 	if err != nil {
 		panic(err)
@@ -732,63 +795,181 @@ func (c06cDriver) Run(raw json.RawMessage) Case {
 	if needed > 1<<40 {
 		needed = 1 << 40 // keep the stored history cheap to build: the needed value is what is stored
 	}
-	_ = repo.Witness("bugs-edit", lamport.Time(needed-1))
+	if needed > 3 {
+		_ = repo.Witness("bugs-edit", lamport.Time(needed-3))
+	}
 	_ = repo.Witness("bugs-create", 1)
 	au, err := identity.NewIdentity(repo, "a", "a@x.org")
 	if err != nil {
 		panic(err)
 	}
 	_ = au.Commit(repo)
-	b, _, err := bug.Create(au, 1600000000, "t", "m", nil, nil)
-	if err != nil {
-		panic(err)
+	var theBug *bug.Bug
+	for k := 0; k < 2; k++ {
+		b, _, err := bug.Create(au, 1600000000, fmt.Sprintf("t%d", k), "m", nil, nil)
+		if err != nil {
+			panic(err)
+		}
+		if err := b.Commit(repo); err != nil {
+			panic(err)
+		}
+		for j := 0; j < 2-k; j++ {
+			if _, _, err := bug.AddComment(b, au, 1600000100, fmt.Sprintf("c%d", j), nil, nil); err != nil {
+				panic(err)
+			}
+			if err := b.Commit(repo); err != nil {
+				panic(err)
+			}
+		}
+		if k == 0 {
+			theBug = b
+		}
 	}
-	if err := b.Commit(repo); err != nil {
-		panic(err)
+	// highest stored times, read back from the entities
+	var stored, storedCreate uint64
+	{
+		ids, _ := bug.ListLocalIds(repo)
+		for _, id := range ids {
+			b, err := bug.Read(repo, id)
+			if err != nil {
+				panic(err)
+			}
+			if uint64(b.EditLamportTime()) > stored {
+				stored = uint64(b.EditLamportTime())
+			}
+			if uint64(b.CreateLamportTime()) > storedCreate {
+				storedCreate = uint64(b.CreateLamportTime())
+			}
+		}
 	}
-	stored := uint64(b.EditLamportTime())
+	baseNames, _ := repo.AllClocks()
 	_ = repo.Close()
+	gb := func(p string) string { return filepath.Join(p, ".git", "git-bug") }
+
+	usable := func(r repository.TestedRepo) (bool, string) {
+		cl, err := r.AllClocks()
+		if err != nil {
+			return false, "AllClocks: " + err.Error()
+		}
+		if len(cl) != len(baseNames) {
+			var names []string
+			for n := range cl {
+				names = append(names, n)
+			}
+			sort.Strings(names)
+			return false, "clocks listed: " + strings.Join(names, ",")
+		}
+		for n := range cl {
+			if _, ok := baseNames[n]; !ok {
+				return false, "unexpected clock " + n
+			}
+		}
+		ni, err := identity.NewIdentity(r, "n", "n@x.org")
+		if err != nil {
+			return false, "new identity: " + err.Error()
+		}
+		if err := ni.Commit(r); err != nil {
+			return false, "new identity commit: " + err.Error()
+		}
+		old, err := identity.ReadLocal(r, au.Id())
+		if err != nil {
+			return false, "read identity: " + err.Error()
+		}
+		if err := old.Mutate(r, func(m *identity.Mutator) { m.Name = "a1" }); err != nil {
+			return false, "mutate identity: " + err.Error()
+		}
+		if err := old.Commit(r); err != nil {
+			return false, "identity commit: " + err.Error()
+		}
+		b, err := bug.Read(r, theBug.Id())
+		if err != nil {
+			return false, "read bug: " + err.Error()
+		}
+		if _, _, err := bug.AddComment(b, old, 1600000200, "after the crash", nil, nil); err != nil {
+			return false, "comment: " + err.Error()
+		}
+		if err := b.Commit(r); err != nil {
+			return false, "bug commit: " + err.Error()
+		}
+		if _, err := bug.Read(r, theBug.Id()); err != nil {
+			return false, "read back bug: " + err.Error()
+		}
+		if err := old.Mutate(r, func(m *identity.Mutator) { m.Name = "a2" }); err != nil {
+			return false, "second mutate: " + err.Error()
+		}
+		if err := old.Commit(r); err != nil {
+			return false, "second identity commit: " + err.Error()
+		}
+		if _, err := identity.ReadLocal(r, au.Id()); err != nil {
+			return false, "read back identity: " + err.Error()
+		}
+		return true, ""
+	}
+
 	type st struct {
-		Content  string `json:"content"`
-		LoadOK   bool   `json:"load_ok"`
-		LoadVal  uint64 `json:"load_val"`
-		RepoOpen bool   `json:"repo_opens"`
-		RepoErr  string `json:"repo_err,omitempty"`
-		RepoVal  uint64 `json:"repo_clock"`
+		Files     map[string]string `json:"files"`
+		Content   string            `json:"content"`
+		Extra     int               `json:"extra"`
+		LoadOK    bool              `json:"load_ok"`
+		LoadVal   uint64            `json:"load_val"`
+		RepoOpen  bool              `json:"repo_opens"`
+		RepoErr   string            `json:"repo_err,omitempty"`
+		RepoVal   uint64            `json:"repo_clock"`
+		Usable    bool              `json:"usable"`
+		UsableErr string            `json:"usable_err,omitempty"`
+	}
+	// the content of the trace, scaled to the stored history: old -> the stored time, new -> the next one
+	scale := func(content string) string {
+		switch {
+		case content == newContent:
+			return fmt.Sprint(stored + 1)
+		case content == oldContent:
+			return fmt.Sprint(stored)
+		case content == "":
+			return ""
+		}
+		sN := fmt.Sprint(stored + 1)
+		if len(content) < len(sN) {
+			return sN[:len(content)]
+		}
+		return sN[:len(sN)-1]
 	}
 	var sts []st
 	var terms []string
-	for i, content := range states {
-		x := st{Content: content}
+	seen := map[string]bool{}
+	for i, fsx := range fstates {
+		key := fmt.Sprint(fsx)
+		if seen[key] {
+			continue
+		}
+		seen[key] = true
+		content := fsx[path]
+		x := st{Files: fsx, Content: content}
+		for pth := range fsx {
+			if filepath.Clean(pth) != path && filepath.Dir(filepath.Clean(pth)) == "clocks" {
+				x.Extra++
+			}
+		}
 		m := newTraceFS()
 		m.put(path, content)
 		lc, err := lamport.LoadPersistedClock(m, path)
 		if err == nil {
 			x.LoadOK, x.LoadVal = true, uint64(lc.Time())
 		}
-		// repository level: the same content in the real clock file (scaled to the stored history)
-		rc := content
-		if content == newContent {
-			rc = fmt.Sprint(stored)
-		} else if content == oldContent {
-			rc = fmt.Sprint(stored) // the old value is what the last complete write left: the stored time
-		} else if content != "" {
-			s := fmt.Sprint(stored)
-			if i < len(s) {
-				rc = s[:i]
-			} else {
-				rc = s[:len(s)-1]
-			}
-		}
 		p := fmt.Sprintf("%s/s%d", dir, i)
 		_ = copyDir(dir+"/r", p)
-		_ = os.WriteFile(filepath.Join(p, ".git", "git-bug", "clocks", "bugs-edit"), []byte(rc), 0644)
+		_ = os.Remove(filepath.Join(gb(p), path))
+		for pth, cont := range fsx {
+			_ = os.MkdirAll(filepath.Dir(filepath.Join(gb(p), pth)), 0755)
+			_ = os.WriteFile(filepath.Join(gb(p), pth), []byte(scale(cont)), 0644)
+		}
 		r, err := openRepo(p)
 		if err != nil {
 			x.RepoErr = err.Error()
 		} else {
 			x.RepoOpen = true
 			x.RepoVal = clockOf(r, "bugs-edit")
+			x.Usable, x.UsableErr = usable(r)
 			_ = r.Close()
 		}
 		_ = os.RemoveAll(p)
@@ -797,12 +978,177 @@ func (c06cDriver) Run(raw json.RawMessage) Case {
 		if x.LoadOK {
 			lv = fmt.Sprintf("(Some %d%%N)", x.LoadVal)
 		}
-		terms = append(terms, fmt.Sprintf("mkcstate %s %s %s %s", coqRunes(content), lv, coqBool(x.RepoOpen), coqBool(x.RepoOpen && x.RepoVal >= stored)))
+		terms = append(terms, fmt.Sprintf("mkcstate %s %d %s %s %s %s", coqRunes(content), x.Extra, lv, coqBool(x.RepoOpen),
+			coqBool(x.RepoOpen && x.RepoVal >= stored), coqBool(x.Usable)))
 	}
+
+	// ---- crash points of the clock rebuild: the process dies after k witnesses reached the storage
+	type rb struct {
+		Variant  string      `json:"variant"`
+		K        int         `json:"k"`
+		Calls    [][2]uint64 `json:"calls"`
+		Complete bool        `json:"complete"`
+		Marker   bool        `json:"marker"`
+		After    []string    `json:"after"`
+		Reopen   bool        `json:"reopen"`
+		ReopenE  string      `json:"reopen_err,omitempty"`
+		Final    []string    `json:"final"`
+	}
+	clockNames := []string{"bugs-create", "bugs-edit"}
+	readClockFile := func(p, name string) string { // missing | broken | value
+		b, err := os.ReadFile(filepath.Join(gb(p), "clocks", name))
+		if err != nil {
+			return "missing"
+		}
+		var v uint64
+		if n, err := fmt.Sscanf(string(b), "%d", &v); err != nil || n != 1 {
+			return "broken"
+		}
+		return fmt.Sprint(v)
+	}
+	cfTerm := func(sx string) string {
+		switch sx {
+		case "missing":
+			return "Missing"
+		case "broken":
+			return "Broken"
+		}
+		return "(Val " + sx + "%N)"
+	}
+	rootFiles := func(p string) map[string]bool {
+		res := map[string]bool{}
+		es, _ := os.ReadDir(gb(p))
+		for _, e := range es {
+			if !e.IsDir() {
+				res[e.Name()] = true
+			}
+		}
+		return res
+	}
+	variants := []struct {
+		name string
+		prep map[string]string // clock name -> "" (delete) | content
+	}{
+		{"both-missing", map[string]string{"bugs-create": "", "bugs-edit": ""}},
+		{"edit-missing", map[string]string{"bugs-edit": ""}},
+		{"create-missing-edit-stale", map[string]string{"bugs-create": "", "bugs-edit": "=1"}},
+		{"edit-broken", map[string]string{"bugs-edit": "=x"}},
+		{"both-broken", map[string]string{"bugs-create": "=", "bugs-edit": "=-"}},
+	}
+	var rbs []rb
+	var rterms []string
+	for vi, v := range variants {
+		base := fmt.Sprintf("%s/v%d", dir, vi)
+		_ = copyDir(dir+"/r", base)
+		for name, what := range v.prep {
+			f := filepath.Join(gb(base), "clocks", name)
+			if what == "" {
+				_ = os.Remove(f)
+			} else {
+				_ = os.WriteFile(f, []byte(what[1:]), 0644)
+			}
+		}
+		var init []string
+		for _, n := range clockNames {
+			init = append(init, cfTerm(readClockFile(base, n)))
+		}
+		before := rootFiles(base)
+		total := -1
+		for k := 0; total < 0 || k <= total; k++ {
+			p := fmt.Sprintf("%s/v%d-k%d", dir, vi, k)
+			_ = copyDir(base, p)
+			dy := &dyingClocks{limit: k}
+			loader := repository.ClockLoader{Clocks: bug.ClockLoader.Clocks, Witnesser: func(r repository.ClockedRepo) error {
+				dy.ClockedRepo = r
+				return bug.ClockLoader.Witnesser(dy)
+			}}
+			g, err := repository.OpenGoGitRepo(p, "git-bug", []repository.ClockLoader{loader})
+			x := rb{Variant: v.name, K: k, Complete: err == nil && !dy.dead}
+			if g != nil {
+				_ = g.Close()
+			}
+			if x.Complete && total < 0 {
+				total = k
+			}
+			for _, cl := range dy.calls {
+				x.Calls = append(x.Calls, cl)
+			}
+			for f := range rootFiles(p) {
+				if !before[f] {
+					x.Marker = true
+				}
+			}
+			for _, n := range clockNames {
+				x.After = append(x.After, readClockFile(p, n))
+			}
+			r, err := openRepo(p)
+			if err != nil {
+				x.ReopenE = err.Error()
+			} else {
+				x.Reopen = true
+				_ = r.Close()
+			}
+			for _, n := range clockNames {
+				x.Final = append(x.Final, readClockFile(p, n))
+			}
+			_ = os.RemoveAll(p)
+			rbs = append(rbs, x)
+			var calls, after, final []string
+			for _, cl := range x.Calls {
+				calls = append(calls, fmt.Sprintf("(%d, %d%%N)", cl[0], cl[1]))
+			}
+			for _, a := range x.After {
+				after = append(after, cfTerm(a))
+			}
+			for _, a := range x.Final {
+				final = append(final, cfTerm(a))
+			}
+			rterms = append(rterms, fmt.Sprintf("mkrcase %s %s %s (mkdisk %s %s) %s %s [%d%%N; %d%%N]", coqList(init), coqList(calls), coqBool(x.Complete),
+				coqBool(x.Marker), coqList(after), coqBool(x.Reopen), coqList(final), storedCreate, stored))
+			if k > 64 {
+				break
+			}
+		}
+		_ = os.RemoveAll(base)
+	}
+
 	p := map[string]string{"inplace": "PInPlace", "rename": "PRename", "unknown": "PUnknown"}[proto]
-	term := fmt.Sprintf("mkcase6c %s %d%%N %d%%N %s %s %s", p, in.Old, uint64(nv), coqRunes(oldContent), coqRunes(newContent), coqList(terms))
-	obs := map[string]interface{}{"protocol": proto, "fs_ops": fs.ops, "old": oldContent, "new": newContent, "states": sts, "stored": stored}
-	return Case{Coq: term, Obs: obs, Tags: []string{"protocol:" + proto}, NonTrivial: true, Key: string(raw)}
+	term := fmt.Sprintf("mkcase6c %s %d%%N %d%%N %s %s %s %s %s %s", p, in.Old, uint64(nv), coqRunes(oldContent), coqRunes(newContent),
+		coqList(evTerms), coqList(inDir), coqList(terms), coqList(rterms))
+	obs := map[string]interface{}{"protocol": proto, "fs_ops": fs.ops, "fs_events": fs.events, "old": oldContent, "new": newContent, "states": sts,
+		"stored_edit": stored, "stored_create": storedCreate, "rebuild": rbs}
+	tags := []string{"protocol:" + proto}
+	for _, x := range sts {
+		if x.Extra > 0 {
+			tags = append(tags, "leftover-in-clocks-dir")
+			break
+		}
+	}
+	return Case{Coq: term, Obs: obs, Tags: tags, NonTrivial: true, Key: string(raw)}
+}
+
+// dyingClocks forwards the first `limit` witnesses of a clock rebuild to the repository, then the storage is dead.
+type dyingClocks struct {
+	repository.ClockedRepo
+	limit int
+	dead  bool
+	calls [][2]uint64
+}
+
+func (d *dyingClocks) Witness(name string, t lamport.Time) error {
+	if d.dead || len(d.calls) >= d.limit {
+		d.dead = true
+		return errDead
+	}
+	idx := uint64(0)
+	if name == "bugs-edit" {
+		idx = 1
+	}
+	if err := d.ClockedRepo.Witness(name, t); err != nil {
+		return err
+	}
+	d.calls = append(d.calls, [2]uint64{idx, uint64(t)})
+	return nil
 }
 
 // ---------------------------------------------------------------------------------------------
